@@ -188,9 +188,14 @@ Definition trace_of_req (k : reqkind) : list op :=
   [ORUnlock].
 
 Definition reload_trace : list op := [OTau; OAnnounce; OEnter; OSwap; OUnlock].
+(* a reload whose file does not parse returns before touching the lock *)
+Definition reload_fail_trace : list op := [OTau].
 
-Definition code_cfg (v : nat) (reqs : list reqkind) (m : nat) : cfg :=
-  init_cfg v (map trace_of_req reqs ++ repeat reload_trace m).
+(* k requests of the given kinds, m reloads that succeed and f reloads that fail *)
+Definition code_traces (reqs : list reqkind) (m f : nat) : list (list op) :=
+  map trace_of_req reqs ++ repeat reload_trace m ++ repeat reload_fail_trace f.
+Definition code_cfg (v : nat) (reqs : list reqkind) (m f : nat) : cfg :=
+  init_cfg v (code_traces reqs m f).
 
 (* the pinned code before the fix: a second, nested RLock for the IPv6 selection *)
 Definition old_trace_dual : list op :=
